@@ -87,4 +87,6 @@ func runC14(c *Ctx) {
 	L.Floor("scan-complete", 1, "NumGapsUniquePerSequence's profile counter; the other per-index counters of the statistics have no early exit")
 	L.Assumes("alignment shape invariant: every row reached through the receiver has the cached length")
 	L.Trusts("effect table for standard-library callees (sa/rules/e3_effects.go)")
+	c.checkLoopTables("per-iteration-table", "align")
+	L.Floor("per-iteration-table", 3, "five listed accumulating tables of package align plus the scope line")
 }
